@@ -11,7 +11,7 @@ Step == \/ \E n \in Sizes, bok \in BOOLEAN : Malloc(n, bok)
         \/ \E p \in Live \cup {NoBlock}, a \in {0, 1, 2, SizeMax \div 2 + 1}, b \in {0, 2, 3, SizeMax}, bok \in BOOLEAN : ReallocArray(p, a, b, bok)
         \/ \E p \in Live \cup {NoBlock} : Free(p)
 Next == ops < MaxOps /\ Step /\ ops' = ops + 1
-View == <<ub, bb, ret, errno>>       \* ids are fresh numbers: history variables nextId/nextBid/lastOp/ops are hidden
+View == <<ub, bb, ret, errno, ops>>  \* ids are fresh numbers: history variables nextId/nextBid/lastOp are hidden (ops stays: the depth bound must not depend on which path reached a state first)
 
 \* action properties: what each call promises, stated on (state, next state)
 Op == lastOp'[1]
